@@ -221,6 +221,18 @@ def gen_cases(tier: str, seed: int) -> List[Dict]:
         ((("q0", "q1", "q2"), [[0, 1, 2]]), (("q0",), [[0], [1], [2]])),
         ((("q0", "q1"), [[0, 1], [2, 3]]), (("q0",), [[0], [1], [2], [3]])),
     ]
+    # operands declaring many indeterminates (wide exponent rows) with few used
+    for opt in settings[::2]:
+        for nn, ua, ub in ((9, [0, 8], [1, 8]), (70, [1], [2]), (70, [0, 1, 2], [0, 1])):
+            a = S.many_names_spec("a", nn, ua, (), rng, 2, maxexp=1)
+            b = S.many_names_spec("b", nn, ub, (), rng, 2, maxexp=1)
+            n += 1
+            cases.append({"id": "%s-%03d-pair-manynames%d" % (PROP, n, nn), "op": "compare", "operands": [a, b], "options": opt, "limits": lim})
+    # literal pairs that graded and ungraded orders decide differently (q0**2 against q1; q0*q1 against q2): one path each
+    for opt in settings:
+        for nm, ea, eb in ((("q0", "q1"), [[2, 0]], [[0, 1]]), (("q0", "q1", "q2"), [[1, 1, 0], [0, 0, 0]], [[0, 0, 1]])):
+            n += 1
+            cases.append({"id": "%s-%03d-pair-mixeddeg-lit" % (PROP, n), "op": "compare", "operands": [lit(nm, ea, [2] * len(ea)), lit(nm, eb, [3] * len(eb))], "options": opt, "limits": lim})
     for opt in settings if not quick else settings[::3] + settings[1:2]:
         for (n1, e1), (n2, e2) in tables:
             wide = (lit(n1, e1, [2] * len(e1)), lit(n1, e1, [3] * len(e1)))
